@@ -2,6 +2,10 @@
 Model driver for C15 (strings). Stateful line protocol (one request → one response line).
 
   facts (<xchar> <0|1 white> <xlower> <xupper>) …      per-character facts for the session → `ok`
+  fixes <finding id> …                                  findings recorded as *fixed* in known_findings.json:
+                                                        the model then describes the repaired code
+                                                        (F-C15-1: `F:` strings validate; F-C15-2: integer
+                                                        centre halves; F-C15-3: checked \u{…} accumulator) → `ok`
   <op> <D> <args…> (G <xstring> <len₁> <len₂> …)…       D = F:<xhex>            (`Full` storage)
                                                             | L:<xhex>              (literal: slice of a constant pool;
                                                               modelled as a slice of itself — see
@@ -30,6 +34,12 @@ structure CharFact where
   white : Bool
   lower : Bytes
   upper : Bytes
+
+structure DSt where
+  cf : List CharFact := []
+  fix1 : Bool := false
+  fix2 : Bool := false
+  fix3 : Bool := false
 
 structure SegTab where
   s : Bytes
@@ -82,9 +92,9 @@ partial def resStr : Res → String
   | .err k => "E:" ++ k
   | .panic w => "PANIC:" ++ w
 
-def parseDesc (a : String) : Option KStr :=
+def parseDesc (fix1 : Bool) (a : String) : Option KStr :=
   match a.splitOn ":" with
-  | ["F", h] => (bytesOfHex h).map KStr.ofString
+  | ["F", h] => (bytesOfHex h).map (if fix1 then KStr.ofStringV else KStr.ofString)
   | ["L", h] => (bytesOfHex h).map fun s => KStr.ofSlice s 0 s.length
   | ["S", pre, h, post] => do
     let p ← pre.toNat?
@@ -134,7 +144,9 @@ def parseFVal (a : String) : Option FVal :=
 
 def spaced (xs : List String) : String := " ".intercalate xs
 
-def handleOp (cf : List CharFact) (line : String) : String :=
+def handleOp (st : DSt) (line : String) : String :=
+  let cf := st.cf
+  let parseDesc := parseDesc st.fix1
   let sx := parseLine line
   let tabs := parseTabs sx
   let U := mkFacts cf tabs
@@ -238,7 +250,7 @@ def handleOp (cf : List CharFact) (line : String) : String :=
   | ["lit", h] =>
     (match bytesOfHex h with
      | some b =>
-       (match unescape U b with
+       (match unescape U b st.fix3 with
         | .ok r => "s" ++ hexOfBytes r
         | .error e => if e.startsWith "PANIC" then e else "E:" ++ e)
      | none => "bad-request")
@@ -252,7 +264,7 @@ def handleOp (cf : List CharFact) (line : String) : String :=
   | ["fmt", h, v] =>
     (match bytesOfHex h, parseFVal v with
      | some b, some v =>
-       (match format U.gFirst b v with
+       (match format U.gFirst b v st.fix2 with
         | .ok r => "s" ++ hexOfBytes r
         | .error e => pErrStr e)
      | _, _ => "bad-request")
@@ -267,10 +279,14 @@ def parseFacts (sx : List Sexp) : List CharFact :=
       | _, _, _ => none
     | _ => none
 
-def step (cf : List CharFact) (line : String) : List CharFact × String :=
+def step (st : DSt) (line : String) : DSt × String :=
   if line.startsWith "facts" then
     let sx := parseLine line
-    (cf ++ parseFacts sx, "ok")
-  else (cf, handleOp cf line)
+    ({ st with cf := st.cf ++ parseFacts sx }, "ok")
+  else if line.startsWith "fixes" then
+    let ids := line.splitOn " "
+    ({ st with fix1 := st.fix1 || ids.contains "F-C15-1", fix2 := st.fix2 || ids.contains "F-C15-2",
+               fix3 := st.fix3 || ids.contains "F-C15-3" }, "ok")
+  else (st, handleOp st line)
 
-def main : IO Unit := Proto.serveSt ([] : List CharFact) step
+def main : IO Unit := Proto.serveSt ({} : DSt) step
